@@ -46,6 +46,10 @@ def run_one(m, base):
         for f in ("Cargo.toml", "Cargo.lock"):
             if os.path.exists(os.path.join(extract.REPO, f)):
                 shutil.copy(os.path.join(extract.REPO, f), os.path.join(repo, f))
+        if m["kind"] == "mutant" and m.get("on"):
+            pp = os.path.join(VERIF, "refactorings", m["on"], "patch.diff")
+            if not os.path.exists(pp) or subprocess.run(["patch", "-p1", "-s", "--no-backup-if-mismatch", "-i", pp], cwd=repo, capture_output=True, text=True).returncode != 0:
+                return dict(id=m["id"], status="skipped", why="refactoring %s does not apply" % m["on"])
         if m["kind"] == "mutant":
             p = os.path.join(repo, m["file"])
             s = open(p).read()
